@@ -142,3 +142,21 @@ pub fn entry_fingerprint(entry: &SignedEntry) -> [u8; 32] {
 pub fn empty_fingerprint() -> [u8; 32] {
     crate::ranger::Fingerprint::empty().0
 }
+
+/// Subscribe a channel to the insert events of a replica opened directly from the store.
+pub fn replica_subscribe(replica: &mut Replica<'_>, sender: async_channel::Sender<crate::sync::Event>) {
+    replica.info.subscribe(sender)
+}
+
+/// Unsubscribe a channel again.
+pub fn replica_unsubscribe(
+    replica: &mut Replica<'_>,
+    sender: &async_channel::Sender<crate::sync::Event>,
+) {
+    replica.info.unsubscribe(sender)
+}
+
+/// Number of subscribers of the replica.
+pub fn replica_subscribers(replica: &Replica<'_>) -> usize {
+    replica.info.subscribers_count()
+}
